@@ -35,6 +35,12 @@ inductive Recv where
   | stk (s : Stk)
   | cnd (c : Cnd)
 
+/-- the twin with an EqualityPolicy (id 2, rejecting) of its own -/
+def twinWithPolicy : Val → Val
+  | .stk f c xs => .stk f { c with eqf := some 2 } xs
+  | .cnd f c kw op ex => .cnd f { c with eqf := some 2 } kw op ex
+  | v => v
+
 def obsClos (twin : Val) (r : Recv) : String :=
   match r with
   | .stk s =>
@@ -42,12 +48,14 @@ def obsClos (twin : Val) (r : Recv) : String :=
     s!"V{errTokC (s.ValidE closuresK)} S{hx (s.String closuresK)} Qc{eqTok (Val.IsEqual eqHook false (.stk .native s.cfg s.xs) twin)} " ++
     s!"Qd{eqTok (Val.IsEqual eqHook false (.stk .native s.cfg s.xs) (.stk .native { kind := Gen.kind_basic } [.leaf (.int 99)]))} " ++
     s!"Qs{eqTok (Val.IsEqual eqHook true (.stk .native s.cfg s.xs) (.stk .native s.cfg s.xs))} " ++
+    s!"Qp{eqTok (Val.IsEqual eqHook false (.stk .native s.cfg s.xs) (twinWithPolicy twin))} " ++
     s!"U{errTokC u.2}\{{showVal (.anys u.1)}} R{errClsC s.cfg.err} L{s.xs.length}"
   | .cnd c =>
     let u := c.UnmarshalP closuresK
     s!"V{errTokC (c.valid closuresK)} S{hx (c.string closuresK)} Qc{eqTok (Val.IsEqual eqHook false (.cnd .native c.cfg c.kw c.op c.ex) twin)} " ++
     s!"Qd{eqTok (Val.IsEqual eqHook false (.cnd .native c.cfg c.kw c.op c.ex) (.cnd .native { kind := Gen.kind_cond } ['z', 'z'] (.cmp 2) (.leaf (.int 5))))} " ++
     s!"Qs{eqTok (Val.IsEqual eqHook true (.cnd .native c.cfg c.kw c.op c.ex) (.cnd .native c.cfg c.kw c.op c.ex))} " ++
+    s!"Qp{eqTok (Val.IsEqual eqHook false (.cnd .native c.cfg c.kw c.op c.ex) (twinWithPolicy twin))} " ++
     s!"U{errTokC u.2}\{{showVal (.anys u.1)}} R{errClsC c.cfg.err}"
 
 def stepClos (r : Recv) (ts : List String) : Recv × String :=
